@@ -70,6 +70,10 @@ def specs():
     }
 
 
+DEBUG_SECTIONS = ('MITx Grading Library Version', 'Student Response', 'Evaluation Data for Sample', 'Comparison Data for All', 'Comparer Function',
+                  'Variables:', 'Functions available')      # ('Expect value inferred' legitimately differs: the reference is handed the expect again)
+
+
 def norm(out, debug, inp=None, expect_in_force=None, inferring=False):
     """Comparable form of an outcome."""
     if out.kind == 'exc':
@@ -79,9 +83,12 @@ def norm(out, debug, inp=None, expect_in_force=None, inferring=False):
     r = out.value
     if not debug:
         return ('ok', repr(r))
+    # with debug on the text holds sampled values; its STRUCTURE (which sections, how many of each) is the same for the same call
+    text = r.get('overall_message', '') if 'input_list' in r else r.get('msg', '')
+    shape = tuple(text.count(h) for h in DEBUG_SECTIONS)
     if 'input_list' in r:
-        return ('ok', tuple((e['ok'], e['grade_decimal']) for e in r['input_list']))
-    return ('ok', r['ok'], r['grade_decimal'])
+        return ('ok', tuple((e['ok'], e['grade_decimal']) for e in r['input_list']), shape)
+    return ('ok', r['ok'], r['grade_decimal'], shape)
 
 
 def check_debug_log(ctx, key, out, inp, expect, configured, wit):
@@ -342,9 +349,24 @@ def run_shared(ctx):
     import mitxgraders as M
     rng = ctx.rng
     for i in range(ctx.n(480, 8000)):
-        mode = i % 8
+        mode = i % 9
         own_texts = None
-        if mode == 7:
+        if mode == 8:
+            # an author comparer that hands back the SAME dictionary object every time; answers worth less than 1; a wrong_msg
+            def build():
+                verdicts = {'half': {'grade_decimal': 0.5, 'msg': 'half way'}, 'no': {'grade_decimal': 0, 'msg': ''}}
+
+                def comp(params, student, utils, verdicts=verdicts):
+                    if utils.within_tolerance(params[0], student):
+                        return True
+                    return verdicts['half'] if utils.within_tolerance(2 * params[0], student) else verdicts['no']
+                ans = {'expect': {'comparer': comp, 'comparer_params': ['x^2']}, 'grade_decimal': 0.8}
+                return {'F': M.FormulaGrader(answers=ans, variables=['x'], wrong_msg='W-F'),
+                        'N': M.NumericalGrader(answers={'expect': {'comparer': comp, 'comparer_params': ['4']}, 'grade_decimal': 0.5}, wrong_msg='W-N'),
+                        'M': M.MatrixGrader(answers=ans, variables=['x'])}
+            calls = {'F': [(None, 'x^2'), (None, '2*x^2'), (None, 'x^3'), (None, 'x*x*2')], 'N': [(None, '4'), (None, '8'), (None, '5')],
+                     'M': [(None, 'x^2'), (None, '2*x^2'), (None, '7')]}
+        elif mode == 7:
             # the same TEXT graded by graders whose variables have different dimensions (the parser caches by text)
             tagv = 'q%d' % (3000 + i)
 
@@ -481,7 +503,7 @@ def run_shared(ctx):
                     break
             dbg = bool(getattr(objs[name], 'config', {}).get('debug')) or mode == 1
             if norm(out, dbg) != norm(ref, dbg):
-                key = ['shared_subgrader', 'debug_subgrader', 'negative_powers', 'shared_parser', 'per_call_variables', 'shared_comparer', 'silent_refusals', 'same_text_other_dimensions'][mode]
+                key = ['shared_subgrader', 'debug_subgrader', 'negative_powers', 'shared_parser', 'per_call_variables', 'shared_comparer', 'silent_refusals', 'same_text_other_dimensions', 'persistent_comparer_verdicts'][mode]
                 ctx.violation('C11:shared:%s:%s' % (key, name), 'step %d (%s, expect %r, input %r) gave %r; on freshly built graders it gives %r'
                               % (pos, name, e, s, norm(out, dbg), norm(ref, dbg)), {'history': seq[-10:], 'mode': key})
                 break
